@@ -29,6 +29,7 @@ func init() {
 			"C10-R2 constant-object identity between currentEstimatedRound and roundtimer.New; ErrRoundTooHigh is ignore-class",
 			"C10-R3 for every return of a validation.Error global: guard depends on clock/history ⇒ reject flag unset (exceptions frozen); Reset* clear per-round state",
 			"C10-R4 sort at the emitter / IsSorted at the gate; signer literals; maxDecidedCount normal form",
+			"C10-R5 tick expiry of the proposer / sync-committee duty stores (read by validateBeaconDuty) wipes only a finished scope",
 		},
 		Trusted: []string{"go/types + go/ssa", "hand-confirmed exception list (internal/rules/c10.go)"},
 		Assume:  []string{"observation (not armed): ErrNoDuty (proposer) is reject-class and depends on the local duty store, its sync-committee sibling ErrNoDutyIgnored is ignore-class; beacon-node fetch lag is outside the property's timing premise"},
@@ -38,6 +39,33 @@ func init() {
 
 func runC10(c *core.Ctx) {
 	mvf := mvPkg + ".(*messageValidator)."
+	// ---------------- R5: the duty stores that validation consults (proposer: "no duty" is
+	// reject-class; sync committee) are expired by their handlers only for a scope that is over:
+	// wiping the CURRENT epoch / period on a tick makes every in-window message of a correct
+	// proposer look duty-less
+	for _, typ := range []string{"ProposerHandler", "SyncCommitteeHandler"} {
+		f := fn(c, "C10-R5", dutiesPkg+".(*"+typ+").HandleDuties")
+		if f == nil {
+			continue
+		}
+		n := 0
+		for _, s := range callsIn(f, "ssv/operator/duties/dutystore.*.Reset*") {
+			facts := s.Facts(c)
+			if len(s.Via) > 0 || facts == nil || !isTickerCase(facts) {
+				continue // replace-on-fetch inside fetchAndProcessDuties re-adds at once; reorg / indices-change resets are re-fetched (C16-R4)
+			}
+			n++
+			args := s.Instr.Common().Args
+			arg := s.Arg(c, len(args)-1).String()
+			c.Decide(reScopePast.MatchString(arg), "C10-R5", typ+".HandleDuties|tick expiry wipes a finished scope only", c.P.Pos(s.Instr.Pos()), clip(arg),
+				"on a slot tick "+typ+" wipes "+clip(arg)+", which is not the previous epoch/period: duties whose messages are still inside their validation window disappear from the store the message validator consults, and correct operators' messages are classified 'no duty'")
+		}
+		c.Min("C10-R5", n, 1, typ+" tick expiry")
+	}
+	for _, g := range []string{"ssv/operator/duties/dutystore.Duties.ValidatorDuty", "ssv/operator/duties/dutystore.SyncCommitteeDuties.Duty"} {
+		k := atCalls(c, "C10-R5", mvf+"validateBeaconDuty", g+"*", nil)
+		c.Min("C10-R5", k, 1, "duty-store lookup "+short(g)+" in validateBeaconDuty")
+	}
 	// ---------------- R1
 	k := atCalls(c, "C10-R1", mvf+"validateJustifications", iN+"IsProposalJustification", nil)
 	c.Min("C10-R1", k, 1, "IsProposalJustification call in validateJustifications")
